@@ -55,6 +55,7 @@ include hw
 /-- the brute-force count of the definition, as a family of finsets -/
 theorem specSED_eq (m : Nat) (x : Bool) : specSED h m x = (U h m (specFaces h m x)).card := by
   unfold specSED
+  dsimp only
   rw [count_sublists hw.1 (nodup_subsets hw.1) (fun _ => True) (fun t => by simp [mem_subsets])
     _ (fun u => m ≤ u.card ∧ (∃ p ∈ specFaces h m x, u ⊆ F p.2) ∧ u ∉ EFam h.edges)
     (fun a ha => by
